@@ -5,7 +5,7 @@
 From Coq Require Import List Arith Bool Reals QArith Lia Lra.
 From TLV Require Import Base.Shape Base.PyList Base.Tensor Base.Ops Base.RSum Model.Metrics Proofs.MetricsProofs
   Proofs.MetricsProofs2 Proofs.MetricsProofs3 Proofs.MetricsProofs4 Proofs.MetricsProofs5 Proofs.MetricsProofs6
-  Proofs.MetricsProofs7.
+  Proofs.MetricsProofs7 Proofs.MetricsProofs8.
 Import ListNotations.
 Local Close Scope Q_scope.
 Local Open Scope R_scope.
@@ -252,6 +252,39 @@ Theorem C20_R2_def_and_bound : forall (xo xp : tensor R), wf xo -> wf xp -> shap
   (0 < rsum (prod (shape xo)) (fun k => (nth k (data xo) 0) ^ 2) -> R2_score Rops xo xp <= 1).
 Proof. exact R2_def_and_bound. Qed.
 Print Assumptions C20_R2_def_and_bound.
+
+(* the tensors the code combines in `correlation`: numerator = covariance, radicand = variance * variance.
+   num^2 <= den entry by entry (and both variances >= 0), so with C20_correlation_bound |correlation| <= 1 *)
+Theorem C20_corr_parts_axis_bound : forall (yt yp : tensor R), wf yt -> wf yp -> shape yp = shape yt ->
+  forall a idx, (a < ndim yt)%nat -> inb (remove_nth a (shape yt)) idx ->
+  let parts := corr_parts Rops (Some a) yt yp in
+  (tget Rops (fst parts) idx) ^ 2 <= tget Rops (snd parts) idx /\
+  0 <= tget Rops (variance Rops (Some a) yt) idx /\ 0 <= tget Rops (variance Rops (Some a) yp) idx.
+Proof. exact corr_parts_axis_bound. Qed.
+Print Assumptions C20_corr_parts_axis_bound.
+
+Theorem C20_corr_parts_none_bound : forall (yt yp : tensor R), wf yt -> wf yp -> shape yp = shape yt ->
+  let parts := corr_parts Rops None yt yp in
+  (tget Rops (fst parts) []) ^ 2 <= tget Rops (snd parts) [] /\
+  0 <= tget Rops (variance Rops None yt) [] /\ 0 <= tget Rops (variance Rops None yp) [].
+Proof. exact corr_parts_none_bound. Qed.
+Print Assumptions C20_corr_parts_none_bound.
+
+(* leverage scores incl. the renormalisation branch taken for lower-precision input: with unit-norm columns the
+   result is a probability vector and the renormalisation changes nothing; and renormalising ANY raw score vector
+   with a positive sum (U need not be exactly orthonormal, as in float32) yields a probability vector *)
+Theorem C20_leverage_any_simplex : forall (renorm : bool) (U : mat R) (sv : list R) (nr nc : nat) (eps : R) (l : list R),
+  leverage_score_dist_any Rops renorm U sv nr nc eps = Ok l ->
+  (forall j, (j < length sv)%nat -> rsum nr (fun i => (mget Rops U i j) ^ 2) = 1) ->
+  length l = nr /\ Forall (fun x => 0 <= x) l /\ fsum Rops l = 1 /\ leverage_score_dist Rops U sv nr nc eps = Ok l.
+Proof. exact leverage_any_simplex. Qed.
+Print Assumptions C20_leverage_any_simplex.
+
+Theorem C20_leverage_renorm_simplex : forall (U : mat R) (sv : list R) (nr nc : nat) (eps : R) (l0 l : list R),
+  leverage_score_dist Rops U sv nr nc eps = Ok l0 -> leverage_score_dist_any Rops true U sv nr nc eps = Ok l ->
+  0 < fsum Rops l0 -> Forall (fun x => 0 <= x) l /\ fsum Rops l = 1.
+Proof. exact leverage_renorm_simplex. Qed.
+Print Assumptions C20_leverage_renorm_simplex.
 
 (* ---------- non-vacuity ---------- *)
 (* the oracle contract is satisfiable: the brute force itself meets it *)
